@@ -507,33 +507,89 @@ func ruleLicenceArms() check.Rule {
 					if cl := model.Callee(info, call); cl == nil || cl.Name() != "isPrometheusEnabled" {
 						return true
 					}
-					uses := func(blk ast.Node, want *types.Var, other *types.Var) bool {
-						has, hasOther := false, false
-						if blk == nil {
-							return false
+					// the parameters an arm is built from, through the variables it mentions and their definitions (the
+					// compositions may be applied to the source before the subscribe closure and only chosen here)
+					var roots func(n ast.Node, depth int, acc map[types.Object]bool)
+					roots = func(n ast.Node, depth int, acc map[types.Object]bool) {
+						if n == nil {
+							return
 						}
-						ast.Inspect(blk, func(x ast.Node) bool {
-							if id, ok := x.(*ast.Ident); ok {
-								if objOf(info, id) == want {
-									has = true
-								}
-								if objOf(info, id) == other {
-									hasOther = true
-								}
+						ast.Inspect(n, func(x ast.Node) bool {
+							id, ok := x.(*ast.Ident)
+							if !ok {
+								return true
 							}
-							if as, ok := x.(*ast.AssignStmt); ok && len(as.Lhs) == 1 {
-								if id, ok := as.Lhs[0].(*ast.Ident); ok {
-									pv = objOf(info, id)
+							o := objOf(info, id)
+							if o == nil {
+								return true
+							}
+							if v, isVar := o.(*types.Var); isVar {
+								if byName[v.Name()] == v {
+									acc[o] = true
+									return true
+								}
+								if depth > 0 {
+									for _, d := range m.Defs[v] {
+										if d.Expr != nil {
+											roots(d.Expr, depth-1, acc)
+										}
+									}
 								}
 							}
 							return true
 						})
-						return has && !hasOther
 					}
-					if uses(ifs.Body, byName["instrumentedPipe"], byName["stdPipe"]) {
+					uses := func(acc map[types.Object]bool, want, other *types.Var) bool {
+						return want != nil && acc[want] && !acc[other]
+					}
+					// of an arm: what its statements compute (the right-hand sides), not the variable they assign
+					armRoots := func(blk ast.Node, acc map[types.Object]bool) {
+						ast.Inspect(blk, func(x ast.Node) bool {
+							switch y := x.(type) {
+							case *ast.AssignStmt:
+								for _, r := range y.Rhs {
+									roots(r, 3, acc)
+								}
+								return false
+							case *ast.ExprStmt:
+								roots(y, 3, acc)
+								return false
+							}
+							return true
+						})
+					}
+					licensed := map[types.Object]bool{}
+					armRoots(ifs.Body, licensed)
+					unlicensed := map[types.Object]bool{}
+					if ifs.Else != nil {
+						armRoots(ifs.Else, unlicensed)
+					} else {
+						// chain := plain; if enabled { chain = instrumented }: the other arm is what the variable holds otherwise
+						ast.Inspect(ifs.Body, func(x ast.Node) bool {
+							as, ok := x.(*ast.AssignStmt)
+							if !ok {
+								return true
+							}
+							for _, l := range as.Lhs {
+								lid, ok := l.(*ast.Ident)
+								if !ok {
+									continue
+								}
+								lv := objOf(info, lid)
+								pv = lv
+								for _, d := range m.Defs[lv] {
+									if d.Expr != nil && !(ifs.Body.Pos() <= d.Pos && d.Pos < ifs.Body.End()) {
+										roots(d.Expr, 3, unlicensed)
+									}
+								}
+							}
+							return true
+						})
+					}
+					if uses(licensed, byName["instrumentedPipe"], byName["stdPipe"]) {
 						armsOK++
 					}
-					if uses(ifs.Else, byName["stdPipe"], byName["instrumentedPipe"]) {
+					if uses(unlicensed, byName["stdPipe"], byName["instrumentedPipe"]) {
 						armsOK++
 					}
 					return true
@@ -770,7 +826,7 @@ func C19() *check.Property {
 		Title:    "Prometheus instrumentation is transparent and its counters are exact",
 		Patterns: cat(CorePatterns, []string{PromPkg}),
 		Scope:    []string{PromPkg},
-		Rules:    []check.Rule{ruleForwarder(), ruleCountOnce(), ruleMetricsWired(), ruleLicenceArms(), rulePipeArms(), ruleRelease(), ruleNoDowngrade(), ruleStateLevel(), ruleCtxProvenance(), ruleSlotCtxArgument(), ruleCallbackCtxUsed(), ruleDeadContextStore(), ruleCtxValueAgreement(), ruleNoGlobalState(), ruleBracketPlacement()},
+		Rules:    []check.Rule{ruleForwarder(), ruleCountOnce(), ruleMetricsWired(), ruleLicenceArms(), rulePipeArms(), ruleRelease(), ruleNoDowngrade(), ruleStateLevel(), ruleCtxProvenance(), ruleSlotCtxArgument(), ruleCallbackCtxUsed(), ruleDeadContextStore(), ruleCtxValueAgreement(), ruleNoGlobalState(), ruleBracketPlacement(), ruleApplyAtBuildTime()},
 		Explanation: "Static check on ee/plugins/prometheus (the OpenTelemetry plugin cannot be type-checked offline and is out of reach). FORWARDER proves each instrumentation operator is the identity on notifications and contexts (one upstream site with the subscriber context; " +
 			"each slot forwards exactly once, unconditionally, its own payload with a context derived from the one it received; or the destination itself is handed upstream); with C01-C03 for the core this is transparency. COUNT-ONCE proves each metric update sits in the slot " +
 			"its operator's name says and runs at most once per event, before forwarding for the stand-alone counters. LICENCE-BOTH-ARMS proves the licence is evaluated at subscription time and selects between compositions built from the same operators; " +
@@ -784,7 +840,7 @@ func C19() *check.Property {
 			"zz_verif_controls_c02.go":                       roControl(controlsC02),
 			"zz_verif_controls_c12.go":                       roControl(controlsC12),
 			"zz_verif_controls_c09.go":                       roControl(controlsC09 + controlsC09b),
-			"zz_verif_controls_global.go":                    roControl(controlsGlobal),
+			"zz_verif_controls_global.go":                    roControl(controlsGlobal + controlsApplyAtBuild),
 		},
 	}
 }
